@@ -2,9 +2,10 @@
 (* Leg G of C12: mutation plans are behaviours of this specification.  Starting from the small   *)
 (* well-formed programs listed in the file IOEnv.SEEDS (one JSON object {name, b: [bytes]} per    *)
 (* line: generated programs and fragments of the shipped tables) TLC enumerates every plan of at  *)
-(* most MaxMut mutations - every truncation point, every single-bit flip, every substitution of   *)
-(* an interesting byte, every corruption of every plausible PkgLength, every splice of a package  *)
-(* in front of another - and writes each distinct resulting byte string, with the plan that led   *)
+(* most MaxMut mutations - every truncation point, every single-bit flip, every byte moved by     *)
+(* -3..3 (length operands that overstate by a few), every substitution of an interesting byte,   *)
+(* every corruption of every plausible PkgLength, every splice of a package in front of another  *)
+(* - and writes each distinct resulting byte string, with the plan that led   *)
 (* to it, to IOEnv.CASES.  The Go harness feeds exactly these strings to the real parser.         *)
 EXTENDS AmlRobust, Json, CSV, IOUtils
 CONSTANTS MaxMut,        \* plan length
